@@ -45,7 +45,7 @@ def jobs(pid, tier, engine):
         for idx, label in labels:
             if label.startswith("T:"):
                 batch.append(int(idx))
-                if len(batch) == 24:
+                if len(batch) == 12:
                     out.append(("thrx", ["thrx", "--property", pid, "--tier", tier, "--drivers", f"{batch[0]}:{batch[-1] + 1}"]))
                     batch = []
             else:
@@ -55,6 +55,8 @@ def jobs(pid, tier, engine):
                 out.append(("thrx", ["thrx", "--property", pid, "--tier", tier, "--driver", idx]))
         if batch:
             out.append(("thrx", ["thrx", "--property", pid, "--tier", tier, "--drivers", f"{batch[0]}:{batch[-1] + 1}"]))
+    # the scheduler jobs are the long ones: start them first
+    out.sort(key=lambda j: 0 if j[0] == "thrx" else 1)
     return out
 
 
